@@ -7,6 +7,8 @@ import (
 	"strings"
 
 	"github.com/graphql-go/graphql"
+
+	"verif/harness/gq"
 )
 
 // newSchema builds the test schema. Every slot/generation gets its own *graphql.Schema (new pointer, same
@@ -183,6 +185,39 @@ func newSchema(tag string) *graphql.Schema {
 		panic("test schema does not build: " + err.Error())
 	}
 	return &s
+}
+
+// schemaDesc describes the schema of newSchema in the wire format the Lean drivers decode (GqlModel.Schema); it is what
+// the model of the normaliser (GqlModel.Normalize) walks. Kept next to newSchema: the two must say the same.
+func schemaDesc() *gq.SchemaDesc {
+	a := func(name, typ string) gq.ArgDesc { return gq.ArgDesc{Name: name, Type: typ} }
+	ad := func(name, typ string, d interface{}) gq.ArgDesc { return gq.ArgDesc{Name: name, Type: typ, Default: d, HasDef: true} }
+	mutArgs := []gq.ArgDesc{a("o", "Pt"), a("l", "[Int]"), a("ll", "[[Int]]"), a("os", "[Pt]"), a("n", "Nest")}
+	mutation := "Mutation"
+	return &gq.SchemaDesc{Query: "Query", Mutation: &mutation, Types: []gq.TypeDesc{
+		{Kind: "ENUM", Name: "Color", Values: []gq.EnumValDesc{{Name: "RED", Internal: "R"}, {Name: "GREEN", Internal: "G"}, {Name: "BLUE", Internal: "B"}}},
+		{Kind: "INPUT_OBJECT", Name: "Pt", InputFields: []gq.ArgDesc{ad("x", "Int", 7), a("y", "Int")}},
+		{Kind: "INPUT_OBJECT", Name: "Nest", InputFields: []gq.ArgDesc{a("p", "Pt"), a("l", "[Int]"), a("ps", "[Pt]"), a("ll", "[[Int]]")}},
+		{Kind: "INTERFACE", Name: "Node", ResolveType: true, Fields: []gq.FieldDesc{{Name: "id", Type: "Int"}, {Name: "kind", Type: "String"}}},
+		{Kind: "OBJECT", Name: "Person", Interfaces: []string{"Node"}, Fields: []gq.FieldDesc{
+			{Name: "id", Type: "Int"}, {Name: "kind", Type: "String"}, {Name: "nick", Type: "String", Args: []gq.ArgDesc{a("suffix", "String")}}}},
+		{Kind: "OBJECT", Name: "Item", Interfaces: []string{"Node"}, Fields: []gq.FieldDesc{
+			{Name: "id", Type: "Int"}, {Name: "kind", Type: "String"},
+			{Name: "name", Type: "String", Args: []gq.ArgDesc{a("prefix", "String"), a("sep", "String")}},
+			{Name: "tags", Type: "[String]", Args: []gq.ArgDesc{ad("first", "Int", 2)}},
+			{Name: "mut", Type: "String", Args: mutArgs}, {Name: "next", Type: "Item"}, {Name: "owner", Type: "Person"}}},
+		{Kind: "UNION", Name: "Thing", Members: []string{"Item", "Person"}, ResolveType: true},
+		{Kind: "OBJECT", Name: "Query", Fields: []gq.FieldDesc{
+			{Name: "tag", Type: "String"},
+			{Name: "echo", Type: "String", Args: []gq.ArgDesc{a("s", "String"), a("i", "Int"), a("f", "Float"), a("b", "Boolean"), a("l", "[Int]"), a("e", "Color"), a("o", "Pt"), a("id", "ID")}},
+			{Name: "mut", Type: "String", Args: mutArgs},
+			{Name: "item", Type: "Item", Args: []gq.ArgDesc{a("id", "Int")}},
+			{Name: "items", Type: "[Item]", Args: []gq.ArgDesc{a("n", "Int"), a("from", "Int")}},
+			{Name: "node", Type: "Node", Args: []gq.ArgDesc{a("id", "Int")}},
+			{Name: "things", Type: "[Thing]", Args: []gq.ArgDesc{a("n", "Int")}},
+			{Name: "fail", Type: "String", Args: []gq.ArgDesc{a("msg", "String")}}}},
+		{Kind: "OBJECT", Name: "Mutation", Fields: []gq.FieldDesc{{Name: "bump", Type: "String", Args: []gq.ArgDesc{a("by", "Int")}}}},
+	}}
 }
 
 // mutateDeep overwrites list elements, sets, adds and deletes input-object keys, at every nesting level.
